@@ -803,8 +803,8 @@ Definition xv_r_variables_input_types (s : schema) (d : document) : bool :=
 (* a variable usage: the name and, where the position has an expected type, that type and whether the
    position (argument or input object field) has a default value.  Two facts about the position are recorded
    for Exec/Known.v (the rules of this file do not read them): whether the usage is nested inside a list or
-   object literal, and whether it is inside an object literal written for a custom scalar (the latter is read
-   only by the record of a repaired defect, xk_old_r_variables_defined). *)
+   object literal, and whether it is inside an object literal written for a custom scalar (both are read only by
+   the records of repaired defects, xk_old_r_variable_usages_allowed and xk_old_r_variables_defined). *)
 Record xv_usage := { xu_name : str; xu_loc : option (ty * bool); xu_nested : bool; xu_in_scalar_object : bool }.
 
 (* the usages inside a value written where `expected` is expected.  5.8.5: "the expected type of the Argument,
